@@ -198,6 +198,13 @@ func runCheck(prop, tier string, seed int64, modelPath, selfPath, replayDir, out
 			var model Resp
 			if !c.ImplOnly {
 				model = ParseResp(modelOut[i])
+				if model["ws"] == "0" {
+					// the model's parser accepted a program that is not well-scoped: the hypothesis
+					// of C01's theorem (what the parser flags enforce) would not hold
+					what := "model parser accepted a program/selector that is not well-scoped (ws=0)"
+					p := writeReplay(replayDir, prop, fam.Name, c, impl, model, "oracle", what)
+					res.Violations = append(res.Violations, violation{fam.Name, c.ID, "oracle", what, p, key})
+				}
 				if model.Skippable() {
 					st.Skipped[model["class"]]++
 				} else {
